@@ -11,6 +11,7 @@ EXPLANATION = ('Static rules on scheduler.rs: H1 OnceTask/FutureTask call their 
                'TaskHandle::unsubscribe clears the flag under the same cell (after unsubscribe returns the body neither runs nor starts); '
                'H5 value=Some is written only by Remote::poll after the inner future is Ready, so a handle reports closed only when the '
                'task can no longer act; H6 all schedule impls are instances of one macro. H4 repeating tasks tick only after a Ready period timer that is re-armed with the period each time, count seq by +1 and stop when the task declines (same rules as C08.I1/I2, C16.E3). '
+               'H7 task handles registered with a MultiSubscription are let go only by unsubscribing them (same rule as C17.K6), so a cancelled pipeline cannot leave a task that still starts. '
                'Does not decide virtual-time run orders.')
 ASSUMPTIONS = ['the timer future returned by new_timer completes no earlier than its duration (trusted dependency)']
 
@@ -30,8 +31,15 @@ def check(cx):
     res = []
     res += h1(cx) + h3(cx)
     if not cx.control:
-        res += h2(cx) + h5(cx) + h6(cx) + h4(cx)
+        res += h2(cx) + h5(cx) + h6(cx) + h4(cx) + h7(cx)
     return res
+
+
+def h7(cx):
+    """a task stays cancellable for as long as it can act: the composite that operators register their task handles with
+    lets go of a handle only by unsubscribing it (same rule as C17.K6) — a dropped TaskHandle no longer cancels its task"""
+    from . import c17
+    return [Finding(ID, 'H7', f.key, f.ok, f.msg, f.loc, f.witness) for f in c17.k6(cx)]
 
 
 def h1(cx):
